@@ -3,7 +3,7 @@
     0xA8 and the sequences section; or a zero sequence count.  Plus the inverse direction used by the correspondence
     check: take a real block apart with the decoder model and write it again with this model. *)
 Require Import Zrs.lib.RsPrelude Zrs.gen.Generated Zrs.model.Headers Zrs.model.BitIO Zrs.model.FseDec Zrs.model.HufDec Zrs.model.BlockDec.
-Require Import Zrs.model.BitStream Zrs.model.SeqEnc Zrs.model.FseEnc Zrs.model.SeqSection Zrs.model.Matcher.
+Require Import Zrs.model.BitStream Zrs.model.SeqEnc Zrs.model.FseEnc Zrs.model.SeqSection Zrs.model.Matcher Zrs.model.LitEnc.
 Open Scope Z_scope.
 
 (** what [compress_block] makes of the match finder's sequences: one literal buffer, and (literal length, match length,
@@ -61,3 +61,58 @@ Definition fastest_first_block (window : nat) (data body : list Z) : res (bool *
     let dl := dist_of (fs_ll s2) in let do := dist_of (fs_of s2) in let dm := dist_of (fs_ml s2) in
     let* again := block_raw_lits lits dl do dm seqs in
     ROk (section_hyps_b dl do dm seqs, again).
+
+(** the sequences part of a block: a zero count, or count, mode byte and section *)
+Definition seq_part (dl do dm : dist) (seqs : list sequence) : res (list Z) :=
+  match seqs with
+  | [] => ROk [0]
+  | _ =>
+      let* (u, sn) := encode_seqnum (Z.of_nat (length seqs)) [] in
+      let* sec := section_bytes dl do dm seqs in
+      ROk (sn ++ MODES_ALL_ENCODED :: sec)
+  end.
+
+(** the code as a table over the byte values *)
+Definition codes_of_dec (t : huf_table) : list hcode := map (fun n => code_of_dec t (Z.of_nat n)) (seq 0 256).
+Definition code_of_list (codes : list hcode) (s : Z) : hcode := nth (Z.to_nat s) codes (0, O).
+
+Definition huf_side_b (t : huf_table) (code : Z -> hcode) (lits : list Z) : bool :=
+  let mn := Z.to_nat (ht_max_bits t) in
+  let '(a, b, c, d) := split4 lits in
+  table_side_b t mn && (16 <=? length lits)%nat &&
+  forallb (fun s => code_ok_b mn code s && resolves_b t mn code s) (nodup Z.eq_dec lits) &&
+  (zlen (hstream code a) <? 65536) && (zlen (hstream code b) <? 65536) && (zlen (hstream code c) <? 65536).
+
+(** any compressed block of the compressor (raw or Huffman-coded literals; all sequence tables FSE-coded): taken apart
+    with the decoder model from the Huffman table [ht] the decoder holds, and written again with the encoder models.
+    Returns the decoder's new Huffman table, whether the side conditions of the block theorems hold, and the bytes *)
+Definition rewrite_block (ht : huf_table) (body : list Z) : res (huf_table * bool * list Z) :=
+  let* (used, ty, regen, comp, streams) := lit_header_parse body in
+  let upper := match comp with Some x => x | None => if ty =? 1 then 1 else regen end in
+  let payload := take_z upper (drop_z used body) in
+  let* (ht', lits, used_lit) := decode_literals {| ls_type := ty; ls_regen := regen; ls_comp := comp; ls_streams := streams |} ht payload in
+  let rest := drop_z (used + upper) body in
+  let* (used_seq, nseq, modes) := sequences_header_parse 0 None rest in
+  let* (hs, dl, do, dm, seqs) :=
+    (if nseq =? 0 then ROk (true, (0, []), (0, []), (0, []), [])
+     else
+       let* (s2, seqs) := decode_sequences nseq modes (drop_z used_seq rest) fse_scratch_new in
+       let dl := dist_of (fs_ll s2) in let do := dist_of (fs_of s2) in let dm := dist_of (fs_ml s2) in
+       ROk (section_hyps_b dl do dm seqs, dl, do, dm, seqs)) in
+  let* sp := seq_part dl do dm seqs in
+  if ty =? 0 then ROk (ht', hs, raw_lit_header (zlen lits) ++ lits ++ sp)
+  else if (ty =? 2) || (ty =? 3) then
+    let* desc := (if ty =? 2 then let* (t, u) := huf_build_decoder ht payload in ROk (take_z u payload) else ROk []) in
+    let code := code_of_list (codes_of_dec ht') in
+    ROk (ht', hs && huf_side_b ht' code lits && (zlen payload <? zlen lits), huf_lit_section ty desc code lits ++ sp)
+  else RErr "RLE literals".
+
+(** all compressed blocks of a frame in order: [true] iff every block is reproduced with its side conditions *)
+Fixpoint rewrite_blocks (ht : huf_table) (bodies : list (list Z)) : res (list (bool * bool)) :=
+  match bodies with
+  | [] => ROk []
+  | b :: t =>
+      let* (ht', h, again) := rewrite_block ht b in
+      let* r := rewrite_blocks ht' t in
+      ROk ((h, if list_eq_dec Z.eq_dec again b then true else false) :: r)
+  end.
